@@ -26,7 +26,10 @@ RULE = ('three full products and one family of histories: (clamp) class x specie
         'S_TS,S_P in {0,5,-5} R) x TS {none, explicit, BEP(slope,intercept)} x T x P, both directions, four getters; '
         '(bep) descriptor x slope x intercept x body x T x class, both directions; (A) class x reactant pattern '
         '(0-3 surface reactants on 1-2 sites, bulk species, gas partner) x site densities x operation x TS x '
-        'entropy option x output units x lambda; (shared) class x group of 2-3 reaction bodies built on ONE set of '
+        'entropy option x output units x lambda, and the entropy route on Reaction / ChemkinReaction / SurfaceReaction x '
+        'transition state {BEP relation, species, none} x site pattern (same sites on both sides) x operation x '
+        'direction {omitted, False, True} x m {0, 1, 2.5, None, omitted} x include_entropy {omitted, True, False}; '
+        '(shared) class x group of 2-3 reaction bodies built on ONE set of '
         'species objects x transition state {one BEP shared, one BEP each, deepcopy / to_dict-from_dict copies of the '
         'first BEP edited after creation, one explicit species shared, none} x descriptor x (slope, intercept, keyword '
         'variant: T / T and P / integer-typed numbers) - a history per case: every probe on the reactions in every '
@@ -450,7 +453,7 @@ def _A_cases(tier):
                         for u in units:
                             out.append(dict(part='A', sub='sden', cls=cls, pattern=pi, sden=[sa, sb], op=op, ts=ts,
                                             units=u, T=TEMPS[0] if (pi + ts) % 2 == 0 else TEMPS[1], dS=5.0 if ts else 0.0))
-    return out
+    return out + _tsA_cases(tier)
 
 
 def _A_build_sden(case, lam=1.0):
@@ -526,6 +529,8 @@ def _check_A(case, ctx):
     from pmutt import constants as c
     kbh = c.kb('J/K') / c.h('J s')
     ctx.tag('A:cls:' + case['cls'])
+    if case['sub'] == 'tsA':
+        return _check_tsA(case, ctx)
     if case['sub'] == 'entropy':
         T, nu, m = case['T'], case['nu'], case['m']
         sr, st, sp = case['S']
@@ -637,6 +642,224 @@ def _check_A(case, ctx):
         expo = (1 - n_surf) if dens else 0.0
         ctx.close('site densities x lambda multiply A by lambda^(1 - n_surf)', math.log(A[lam] / A[1.0]),
                   expo * math.log(lam), dict(sig0, law='scaling'), case, rtol=1e-10, atol=1e-9, scale=10.0)
+
+
+# ------------------------------------------------------------------ part 'A', sub 'tsA'
+# The entropy route on the classes that write kinetic-model files (and on Reaction with a BEP): every kind of
+# transition state {BEP relation, explicit species, none} x direction {omitted, False, True} x m {0, 1, 2.5, None,
+# omitted} x include_entropy {omitted, True, False} on one reaction object, every combination against
+# (kB/h) exp(deltaS_act/R + m) sigma_eff^(1 - n_surf), deltaS_act = S_TS - S_initial from the species getters (a BEP
+# relation carries the entropy of the reactants - documented default).  Both sides of a pattern put the same number of
+# species on the same sites, so "the number of surface reactants" and sigma_eff do not depend on how `rev` is read.
+TSA_PATTERNS = [
+    ([('A', 1.0)], [('A', 1.0)]),
+    ([('A', 1.0), ('B', 1.0)], [('B', 1.0), ('A', 1.0)]),
+    ([('gas', 1.0), ('A', 1.0)], [('A', 1.0)]),
+    ([('A', 2.0)], [('A', 1.0), ('A', 1.0)]),
+    ([('gas', 0.5), ('A', 1.0), ('bulk', 1.0)], [('A', 1.0), ('gas', 1.0)]),
+]
+TSA_TS = ['bep', 'bep0', 'explicit', 'none']
+TSA_BEP = {'bep': (0.3, 15.0, 'delta_H'), 'bep0': (0, 0, 'rev_delta_H')}      # bep0: integer-typed boundary values
+TSA_SP = [4.0, -3.0]                    # entropy level of the products (reactants 1 ... 3 R): S_R != S_P either way
+TSA_M = [0, 1, 2.5, None, 'omitted']
+TSA_REV = ['omitted', False, True]
+TSA_INC = ['omitted', True, False]
+PLANNED_TAGS += ['A:tsA:' + t for t in ('bep', 'explicit', 'none')] + [
+    'A:tsA:rev', 'A:tsA:rev-omitted', 'A:tsA:m-omitted', 'A:tsA:m=None', 'A:tsA:include_entropy=False',
+    'A:tsA:include_entropy-omitted', 'A:tsA:int-T', 'A:tsA:use_q-omitted', 'A:tsA:second-call',
+    'A:tsA:cls:Reaction', 'A:tsA:cls:ChemkinReaction', 'A:tsA:cls:SurfaceReaction']
+
+
+def _tsA_cases(tier):
+    out = []
+    sdens = [[SDENS[1], SDENS[0]]] + ([[SDENS[0], SDENS[2]]] if tier == 'thorough' else [])
+    for ci, cls in enumerate(('ChemkinReaction', 'SurfaceReaction', 'Reaction')):
+        for pi in range(len(TSA_PATTERNS)):
+            for tsk in TSA_TS:
+                if cls == 'Reaction' and tsk == 'none':
+                    continue                    # Reaction.get_A is the transition-state expression itself
+                for sP in TSA_SP:
+                    for oi, op in enumerate(OPS if cls != 'Reaction' else [None]):
+                        for sden in sdens:
+                            Ts = TEMPS if tier == 'thorough' else [TEMPS[(pi + oi) % 2]]
+                            if cls == 'SurfaceReaction':
+                                units = A_UNITS if tier == 'thorough' else [A_UNITS[(pi + oi) % len(A_UNITS)]]
+                            else:
+                                units = [None]
+                            for T in Ts:
+                                for u in units:
+                                    out.append(dict(part='A', sub='tsA', cls=cls, pattern=pi, ts=tsk, sP=sP, op=op,
+                                                    sden=sden, units=u, T=T, dS=5.0,
+                                                    intT=bool((pi + ci + oi) % 2)))
+    return out
+
+
+def _tsA_build(case):
+    cls = case['cls']
+    rpat, ppat = TSA_PATTERNS[case['pattern']]
+    sa, sb = case['sden']
+    if cls == 'ChemkinReaction':
+        from pmutt.chemkin import CatSite
+        sites = {'A': CatSite(name='siteA', site_density=sa, density=21.4, bulk_specie='BULK'),
+                 'B': CatSite(name='siteB', site_density=sb, density=12.0, bulk_specie='BULK')}
+    else:
+        sites = {'A': None, 'B': None}
+    groups = {'gas': [], 'A': [], 'B': [], 'bulk': []}
+
+    def mk(name, role, H, S):
+        if role == 'gas':
+            sp = _nasa(name, H + 0.3, S + 2.0, phase='G')
+        elif role == 'bulk':
+            sp = _nasa('BULK', 0.0, 0.25, phase='S', cat_site=sites['A'])
+        else:
+            sp = _nasa(name, H, S, phase='S', cat_site=sites[role])
+        groups[role].append(sp)
+        return sp
+    rs = [(mk('R%d' % i, role, -0.2, 1.0 + 0.75 * i), nu) for i, (role, nu) in enumerate(rpat)]
+    ps = [(mk('P%d' % j, role, -0.3 - 0.1 * j, case['sP'] + 0.5 * j), nu) for j, (role, nu) in enumerate(ppat)]
+    ts = None
+    if case['ts'] == 'explicit':
+        # entropy written directly; the oracle reads it back through the species getter
+        s_ts = case['dS'] + sum(nu * (1.0 + 0.75 * i + (2.0 if role == 'gas' else 0.0))
+                                for i, (role, nu) in enumerate(rpat))
+        ts = mk('TSx', 'A', 0.4, s_ts)
+    elif case['ts'] != 'none':
+        m_, b_, d_ = TSA_BEP[case['ts']]
+        ts = _bep(cls, m_, b_, d_)
+    if cls == 'SurfaceReaction':
+        from pmutt.omkm.phase import InteractingInterface, StoichSolid, IdealGas
+        if groups['gas']:
+            IdealGas(name='gasphase', species=groups['gas'])
+        if groups['bulk']:
+            StoichSolid(name='bulkphase', species=groups['bulk'])
+        InteractingInterface(name='ifaceA', species=groups['A'], site_density=sa)
+        if groups['B']:
+            InteractingInterface(name='ifaceB', species=groups['B'], site_density=sb)
+    kw = dict(reactants=[s_ for s_, _ in rs], reactants_stoich=[n_ for _, n_ in rs],
+              products=[s_ for s_, _ in ps], products_stoich=[n_ for _, n_ in ps])
+    if ts is not None:
+        kw.update(transition_state=[ts], transition_state_stoich=[1.0])
+    return _cls(cls)(**kw), rs, ps, ts
+
+
+def _check_tsA(case, ctx):
+    from pmutt import constants as c
+    kbh = c.kb('J/K') / c.h('J s')
+    cls, tsk, op, u = case['cls'], case['ts'], case['op'], case['units']
+    kind = 'bep' if tsk.startswith('bep') else tsk
+    rpat, ppat = TSA_PATTERNS[case['pattern']]
+    sa, sb = case['sden']
+    T = case['T']
+    Tc = int(T) if case['intT'] else T
+    ctx.tag('A:tsA:cls:' + cls)
+    ctx.tag('A:tsA:' + kind)
+    if case['intT']:
+        ctx.tag('A:tsA:int-T')
+    ctx.nontrivial(case)
+    rxn, rs, ps, ts = _tsA_build(case)
+    ctx.trace()
+    kwf = {'T': float(T)}
+    S_r = math.fsum(nu * R.species_value(sp, 'SoR', kwf) for sp, nu in rs)
+    S_p = math.fsum(nu * R.species_value(sp, 'SoR', kwf) for sp, nu in ps)
+    if kind == 'explicit':
+        S_t = R.species_value(ts, 'SoR', kwf)
+    elif kind == 'bep':
+        S_t = S_r                       # documented: the relation carries the entropy of the reactants
+    else:
+        S_t = None
+    mag = 40.0 + math.fsum(abs(nu * R.species_value(sp, 'SoR', kwf)) for sp, nu in rs + ps) + abs(S_t or 0.0)
+    # site-density factor (the same from either side of these patterns)
+    if cls == 'Reaction':
+        ln_site = 0.0
+    else:
+        dens = []
+        for role, nu in rpat:
+            if role in ('A', 'B'):
+                dens.extend([sa if role == 'A' else sb] * int(nu))
+        n_surf = sum(nu for role, nu in rpat if role in ('A', 'B'))
+        eff = {'sum': math.fsum(dens), 'min': min(dens), 'max': max(dens), 'mean': math.fsum(dens) / len(dens)}[op]
+        eff *= _sden_factor(u)
+        ln_site = -(n_surf - 1) * math.log(eff)
+        mag += abs(ln_site)
+    for rev, m, inc in itertools.product(TSA_REV, TSA_M, TSA_INC):
+        if cls == 'Reaction' and inc != 'omitted':
+            continue                    # Reaction.get_A has no such option
+        kwargs = dict(T=Tc)
+        if cls != 'Reaction':
+            kwargs['sden_operation'] = op
+            if u is not None:
+                kwargs['units'] = _units_arg(u)
+        if rev != 'omitted':
+            kwargs['rev'] = rev
+        else:
+            ctx.tag('A:tsA:rev-omitted')
+        if m != 'omitted':
+            kwargs['m'] = m
+        else:
+            ctx.tag('A:tsA:m-omitted')
+        if inc != 'omitted':
+            kwargs['include_entropy'] = inc
+        else:
+            ctx.tag('A:tsA:include_entropy-omitted')
+        kwargs['use_q'] = False                 # the entropy route
+        is_rev = rev is True
+        entropic = kind != 'none' and inc is not False
+        if kind == 'none' and cls != 'Reaction':
+            # no transition state: rev / m are not part of the question; evaluate the plain call only
+            if not (rev == 'omitted' and m == 'omitted'):
+                continue
+            kwargs.pop('use_q', None)
+        sig = dict(part='A', cls=cls, law='entropy route, kinetic-file class', ts=kind,
+                   rev='omitted' if rev == 'omitted' else bool(rev),
+                   m={0: '0', None: 'None', 'omitted': 'omitted'}.get(m, 'given'),
+                   include_entropy='omitted' if inc == 'omitted' else bool(inc))
+        try:
+            A = _f(_call(ctx, sig, case, rxn.get_A, **kwargs))
+            A2 = _f(_call(ctx, sig, case, rxn.get_A, **kwargs))
+        except _Failed:
+            continue
+        ctx.trans()
+        if is_rev:
+            ctx.tag('A:tsA:rev')
+        if m is None:
+            ctx.tag('A:tsA:m=None')
+        if inc is False:
+            ctx.tag('A:tsA:include_entropy=False')
+        if not ctx.true('pre-exponential factor > 0', A > 0 and math.isfinite(A), sig, case, A, '> 0'):
+            continue
+        ctx.tag('A:tsA:second-call')
+        ctx.true('the same get_A call repeated on the same reaction gives the same pre-exponential factor',
+                 A2 == A, sig, case, A2, A)
+        if m == 'omitted' and inc == 'omitted' and kind != 'none':
+            # use_q omitted is the partition-function route (q = 1 for NASA species and BEP relations): no closed
+            # form in the statement, but the factor is positive
+            kq = {k_: v_ for k_, v_ in kwargs.items() if k_ != 'use_q'}
+            sq = dict(sig, law='q route positive, kinetic-file class')
+            try:
+                Aq = _f(_call(ctx, sq, case, rxn.get_A, **kq))
+                ctx.tag('A:tsA:use_q-omitted')
+                ctx.true('pre-exponential factor > 0', Aq > 0 and math.isfinite(Aq), sq, case, Aq, '> 0')
+            except _Failed:
+                pass
+        base = math.log(kbh * T) if cls == 'Reaction' else math.log(kbh)
+        if entropic:
+            if m is None:
+                mm = math.fsum(nu for _, nu in (ps if is_rev else rs))      # molecularity of the initial state
+            elif m == 'omitted':
+                mm = 0.0
+            else:
+                mm = float(m)
+            dS = S_t - (S_p if is_rev else S_r)
+            ctx.close('A x sigma_eff^(n_surf - 1) = (kB/h) exp(deltaS_act/R + m) by the entropy route: every kind of '
+                      'transition state (BEP relation, species), both directions, every m', math.log(A),
+                      base + dS + mm + ln_site, sig, case, rtol=1e-10, atol=1e-9, scale=mag)
+        elif kind == 'none' or m in (0, 'omitted'):
+            # without a transition state / with the entropy of activation switched off: kB/h per unit temperature
+            # (include_entropy=False with m != 0: evaluated, positive, no verdict on the value - the option's text
+            # speaks of the entropy only)
+            ctx.close('A x sigma_eff^(n_surf - 1) = kB/h per unit temperature without a transition state or with the '
+                      'entropy of activation switched off', math.log(A), base + ln_site, sig, case,
+                      rtol=1e-10, atol=1e-9, scale=mag)
 
 
 # ================================================================== part 'shared'
@@ -1117,6 +1340,9 @@ def bounds(tier):
     return dict(H_eV=ev, S_over_R=sr, T=TEMPS, slopes=sl, intercepts_kcal=ic, descriptors=DESCRIPTORS,
                 site_densities=SDENS, operations=OPS, lambdas=LAMBDAS, A_units=A_UNITS,
                 reactant_patterns=len(PATTERNS), clamp_cases=len(cl), bep_cases=len(be), A_cases=len(aa),
+                A_entropy_route_kinetic_class_cases=len(_tsA_cases(tier)),
+                A_entropy_route_options=dict(ts=TSA_TS, rev=[str(x) for x in TSA_REV], m=[str(x) for x in TSA_M],
+                                             include_entropy=[str(x) for x in TSA_INC], patterns=len(TSA_PATTERNS)),
                 shared_cases=len(sh), shared_modes=SH_MODES + ['explicit', 'none', 'A'],
                 shared_groups=dict(statmech=SH_GROUPS_SM, empirical=SH_GROUPS_EMP, A_patterns=SH_A_GROUPS),
                 shared_orders='every permutation of the 2-3 reactions (getter-major; reaction-major: ' +
